@@ -805,6 +805,10 @@ fn c03_thread_cases(tier: Tier) -> Vec<(C04Case, usize)> {
         v.push((C04Case { free_base: false, torn_base: false, legacy_base: false, readers_wait: false, fsync_fault2: None, header_fault: None, second: vec![], fsync_fault: None, chain, readers: 1, dumps: 2 }, 2));
     }
     v.push((C04Case { free_base: false, torn_base: false, legacy_base: false, readers_wait: false, fsync_fault2: None, header_fault: None, second: vec![], fsync_fault: None, chain: vec![0, 3, 5], readers: 2, dumps: 2 }, 1));
+    // a second writer thread that queues for the writer lock while the reader begins
+    for (chain, second) in [(vec![0, 2], vec![3]), (vec![3], vec![2, 5])] {
+        v.push((C04Case { free_base: false, torn_base: false, legacy_base: false, readers_wait: false, fsync_fault2: None, header_fault: None, second, fsync_fault: None, chain, readers: 1, dumps: 2 }, 2));
+    }
     if tier == Tier::Thorough {
         let nm = c04_menu().len() - 1; // the growth body is used by its own cases only
         for a in 0..nm {
